@@ -271,8 +271,9 @@ static void dump_struct (const char *path, GIStructInfo *s)
 {
   char sub[512], qn[512];
   int nf = g_struct_info_get_n_fields (s), nm = g_struct_info_get_n_methods (s), j;
-  printf ("%s struct n_fields=%d n_methods=%d size=%d alignment=%d foreign=%d gtype_struct=%d type_name=%s type_init=%s copy=%s free=%s\n",
-          path, nf, nm, (int) g_struct_info_get_size (s), (int) g_struct_info_get_alignment (s),
+  /* size and alignment are gsize: printed unsigned (an unknown layout is stored as all-ones) */
+  printf ("%s struct n_fields=%d n_methods=%d size=%lu alignment=%lu foreign=%d gtype_struct=%d type_name=%s type_init=%s copy=%s free=%s\n",
+          path, nf, nm, (unsigned long) g_struct_info_get_size (s), (unsigned long) g_struct_info_get_alignment (s),
           g_struct_info_is_foreign (s) ? 1 : 0, g_struct_info_is_gtype_struct (s) ? 1 : 0,
           S (g_registered_type_info_get_type_name ((GIRegisteredTypeInfo *) s)),
           S (g_registered_type_info_get_type_init ((GIRegisteredTypeInfo *) s)),
@@ -301,9 +302,9 @@ static void dump_union (const char *path, GIUnionInfo *u)
 {
   char sub[512];
   int nf = g_union_info_get_n_fields (u), nm = g_union_info_get_n_methods (u), j;
-  printf ("%s union n_fields=%d n_methods=%d discriminated=%d size=%d alignment=%d type_name=%s type_init=%s copy=%s free=%s\n",
-          path, nf, nm, g_union_info_is_discriminated (u) ? 1 : 0, (int) g_union_info_get_size (u),
-          (int) g_union_info_get_alignment (u),
+  printf ("%s union n_fields=%d n_methods=%d discriminated=%d size=%lu alignment=%lu type_name=%s type_init=%s copy=%s free=%s\n",
+          path, nf, nm, g_union_info_is_discriminated (u) ? 1 : 0, (unsigned long) g_union_info_get_size (u),
+          (unsigned long) g_union_info_get_alignment (u),
           S (g_registered_type_info_get_type_name ((GIRegisteredTypeInfo *) u)),
           S (g_registered_type_info_get_type_init ((GIRegisteredTypeInfo *) u)),
           S (g_union_info_get_copy_function (u)), S (g_union_info_get_free_function (u)));
